@@ -76,3 +76,17 @@ PROPS["C14"] = {
         {"name": "c14-push", "pkg": SECRETSTORE, "run": "TestVerifC14", "timeout": {"quick": 600, "thorough": 2400}},
     ],
 }
+
+ROOT = "."
+PROPS["C13"] = {
+    "level": "exploration",
+    "units": [
+        {"name": "c13-listings", "pkg": ROOT, "run": "TestVerifC13", "timeout": {"quick": 900, "thorough": 3000}},
+    ],
+}
+PROPS["C04"] = {
+    "level": "exploration",
+    "units": [
+        {"name": "c04-convergence", "pkg": ROOT, "run": "TestVerifC04", "timeout": {"quick": 1200, "thorough": 3400}},
+    ],
+}
